@@ -211,6 +211,18 @@ pub fn run(reg: &[Box<dyn TypeOps>], cfg: &Cfg, out: &mut dyn Write) {
                 }
             }
         }
+        // tight rooms (S98): an item that is a struct or an enum pushed twice into an empty vector, in a buffer of *every* length from the
+        // minimum up to where two such items fit comfortably — whichever length leaves exactly "one slot and a little" for a push is among them
+        if let Shape::Flex(e, _) = &sh {
+            if matches!(**e, Shape::UStruct(..) | Shape::UEnum(..)) {
+                let os = sh.data_offset();
+                let span = 2 * (os + 24) + 3 * al;
+                for k in 0..(if cfg.thorough { 2 } else { 1 }) {
+                    let it = gen_init(e, &mut Rng::new(cfg.seed ^ (tid as u64 * 31 + k)), 2);
+                    for r in 0..span { boundary.push((t.min_size() + r, vec![Op::FPush(it.clone()), Op::FPush(it.clone())])); }
+                }
+            }
+        }
         // capacities above what a 2-byte length type can count (a buffer of more than 64 KiB): the string is filled up to and across
         // `L::MAX` = 65535 (strings only: the model's element-wise rendering makes a 65 535-element vector too slow to replay)
         match &sh {
